@@ -529,6 +529,9 @@ pub fn workload(name: &str, tier: &str) -> Option<Box<dyn Workload>> {
         "c07inv" => Some(Box::new(c07::Invariance {
             n: if quick { 10_000 } else { 500_000 },
         })),
+        "c07kinds" => Some(Box::new(c07::KindTable {
+            variants: if quick { 3 } else { 40 },
+        })),
         "c07agree" => Some(Box::new(c07::Agreement {
             n: if quick { 9600 } else { 480_000 },
         })),
